@@ -1,6 +1,7 @@
 package pure
 
 import (
+	"encoding/hex"
 	"verif/harness/kit"
 	"verif/harness/ref"
 
@@ -153,3 +154,5 @@ func countSpecial(b []byte) int {
 	}
 	return n
 }
+
+func hexDecode(s string) ([]byte, error) { return hex.DecodeString(s) }
